@@ -158,7 +158,7 @@ def c11_pda(t: T10, m: int, finals: int, rkind: int, d: D4, rs: int, rf: int, rs
     pre: ((1 <= m) & (m <= 2)) & ((0 <= finals) & (finals < 4)) & ((0 <= rkind) & (rkind < 4)) & ((0 <= rsym) & (rsym < 3)) & ((0 <= rf) & (rf < 4))
     pre: pda_canonical(t, m, 2, 2)
     pre: (t[0] == 0) & (t[2] == 0)
-    pre: THOROUGH or ((t[6] <= 1) & (t[9] <= 3))
+    pre: (t[6] <= 1) & (t[9] <= 3)
     pre: (rkind != 0) or (enc.in_range(d, 3) and 0 <= rs <= 2)
     pre: (rkind not in (1, 2)) or (0 <= d[0] <= 12 and 0 <= d[1] <= 12 and d[0] <= d[1] and d[2] == 0 and d[3] == 0 and 0 <= rs < 4)
     pre: (rkind != 3) or (enc.in_range(d, 8) and d[3] == 0 and 1 <= rs <= 3 and rf == 0)
@@ -217,11 +217,13 @@ def _sh_cfg(tier):
              dict(p=2, h0=0, l0=0, rkind=0, rsym=2, rs=1, rf=3, d0=1, d1=0)] + \
             product_pins(p=[2], h0=[0], l0=[1], s0=[2], rkind=[1, 2], rsym=[0], rs=[3], rf=[2], d0=[1, 8]) + \
             product_pins(p=[1], h0=[0], l0=[1], rkind=[3], rsym=[0], rs=[1, 3], rf=[0])
-    return product_pins(p=[2], h0=[0], l0=[0, 1, 2], rkind=[0], rsym=[0, 1, 2], rs=[0, 1], rf=[1, 3],
-                        d0=[0, 1, 2]) + \
-        product_pins(p=[2], h0=[0], l0=[1, 2], rkind=[1, 2], rsym=[0, 1], rf=[1, 2],
-                     d0=[1, 3, 5, 8, 10]) + \
-        product_pins(p=[1, 2], h0=[0], l0=[1], rkind=[3], rsym=[0], rs=[1, 2, 3], rf=[0], d0=list(range(8)))
+    rows = ((1, 0), (2, 2), (0, 1), (2, 0))
+    return [dict(p=2, h0=0, l0=1, s0=s0_, rkind=0, rsym=rs_, rs=1, rf=rf_, d0=d0_, d1=d1_)
+            for s0_ in (2, 3) for rs_ in (0, 1) for rf_ in (1, 3) for (d0_, d1_) in rows] + \
+        [dict(p=2, h0=0, l0=0, rkind=0, rsym=rs_, rs=1, rf=rf_, d0=d0_, d1=d1_)
+         for rs_ in (0, 1, 2) for rf_ in (1, 3) for (d0_, d1_) in rows] + \
+        product_pins(p=[2], h0=[0], l0=[1], s0=[2], rkind=[1, 2], rsym=[0, 1], rs=[1, 3], rf=[1, 2], d0=[1, 3, 8]) + \
+        product_pins(p=[1], h0=[0], l0=[1, 2], rkind=[3], rsym=[0], rs=[1, 2, 3], rf=[0])
 
 
 def _sh_pda(tier):
@@ -230,12 +232,9 @@ def _sh_pda(tier):
                             rf=[1, 2], d0=[1], d1=[0]) + \
             product_pins(m=[2], finals=[2], i0=[1], c0=[3], f1=[0, 1], rkind=[1], rsym=[0], rs=[3], rf=[2],
                          d0=[1])
-    return product_pins(m=[1, 2], finals=[2, 3], i0=[0, 1], c0=[0, 2, 3], rkind=[0], rs=[1],
-                        rf=[1, 2, 3], d0=[1, 2]) + \
-        product_pins(m=[2], finals=[2, 3], i0=[0, 1], c0=[3], rkind=[1, 2], rsym=[0], rs=[1, 3], rf=[1, 2],
-                     d0=[1, 3, 8]) + \
-        product_pins(m=[2], finals=[2], i0=[1], c0=[3], f1=[0], rkind=[3], rsym=[0], rs=[1, 3], rf=[0],
-                     d0=list(range(8)))
+    return [dict(m=2, finals=f_, i0=1, c0=c_, f1=f1_, rkind=0, rsym=0, rs=1, rf=rf_, d0=d0_, d1=d1_)
+            for f_ in (2, 3) for c_ in (2, 3) for f1_ in (0, 1) for rf_ in (1, 2) for (d0_, d1_) in ((1, 0), (2, 2))] + \
+        product_pins(m=[2], finals=[2, 3], i0=[1], c0=[3], f1=[0, 1], rkind=[1], rsym=[0], rs=[3], rf=[2], d0=[1, 8])
 
 
 def _sh_types(tier):
@@ -255,14 +254,14 @@ CONDS = [
          {"quick": "grammars S->a or S->eps + any second production (over {S,A},{a,b}) x partial DFA with 2 states over "
                    "{a,b} / {a,c} / {b,a} (start 0, final masks {0} or {0,1}, 4 of the 9 state-0 rows); x eps-NFA / NFA "
                    "whose first edge is one of 3; single production x regex of 1 or 3 tokens from {a,b,|,*,(,),$,c}",
-          "thorough": "all 2-production grammars x DFA(2 states, 2 symbols) incl. no start state, 3 alphabets; "
-                      "eps-NFA/NFA operands; regex operands of 1-3 tokens; also the & operator"},
+          "thorough": "S->a/S->b/S->eps + any second production x 4 state-0 rows x 3 alphabets; eps-NFA/NFA operands "
+                      "with 3 first edges; one production S->x / S->xy x regex of 1-3 tokens; also the & operator"},
          FUNCS, RULE, assumptions=ASSUME),
     Cond("C11", c11_pda, _sh_pda,
          {"quick": "PDA (2 states, stack {Z,X}, 2 transitions: the first reads a from (0,Z) and pushes [X,Z], the second "
                    "reads eps or a and pushes one of 4 words) x partial DFA over {a,b} with state-0 row (a->0, b->none) "
                    "/ eps-NFA: final-state language of the result",
-          "thorough": "1-2 transitions, eps moves, all operand kinds"},
+          "thorough": "both push words [X] and [X,Z] for the first transition, two state-0 rows of the DFA"},
          FUNCS, RULE, assumptions=ASSUME),
     Cond("C11", c11_types, _sh_types,
          {"quick": "cfg.intersection / pda.intersection with an int, a str, a CFG, None, a list raise "
